@@ -26,7 +26,7 @@ MAP = {
     "models/participant.go": "C02 C14 C01 C04 C13",
     "models/signed_latency.go": "C18",
     "websocket/realtime.go": "C04 C02 C01 C12 C13 C14 C05 C06 C07 C11 C17 C18 C19 C10 C03 C16 C08 C09",
-    "websocket/handler.go": "C04 C08 C02 C11 C06 C01 C09 C18",
+    "websocket/handler.go": "C08 C04 C02 C06 C11 C01",
     "modules/vikja/vikja.go": "C16 C04 C01 C06 C03 C17", "modules/vikja/state.go": "C16 C01 C06 C09",
     "modules/odal/odal.go": "C16 C04 C01 C06 C05 C03 C17", "modules/odal/state.go": "C16 C01 C06 C09",
     "modules/dagaz/dagaz.go": "C20 C04 C08 C09", "modules/dagaz/math.go": "C20 C04 C08",
@@ -129,7 +129,10 @@ def run_checks(worker, m, stage):
         for prop in MAP[m["file"]].split():
             parts = PROPS[prop]["parts"]
             if stage == "B":
-                parts = [p for p in parts if not p.get("race") and not p.get("sched") and not p.get("gofuzz") and p["name"] in ("H", "inproc", "verify", "grid", "prim", "shared", "ids", "forward")]
+                names = ("H", "inproc", "verify", "grid", "prim", "shared", "ids", "forward")
+                if m["file"] == "websocket/handler.go":
+                    names = ("W", "Wburst", "Wtie", "Wbp")  # the connection loop is only exercised by the wire driver
+                parts = [p for p in parts if not p.get("race") and not p.get("sched") and not p.get("gofuzz") and p["name"] in names]
                 cmds = [[os.path.join(VERIF, "check"), prop, "--part", p["name"]] for p in parts]
             else:
                 cmds = [[os.path.join(VERIF, "check"), prop]]
